@@ -889,3 +889,37 @@ func (p *Prog) namedConsts(names ...string) (map[int64]string, []string) {
 	}
 	return out, missing
 }
+
+// mentions: some transitive operand of v (any instruction kind, within the function) satisfies pred.
+func mentions(v ssa.Value, pred func(ssa.Value) bool, depth int) bool {
+	seen := map[ssa.Value]bool{}
+	var rec func(x ssa.Value, d int) bool
+	rec = func(x ssa.Value, d int) bool {
+		if x == nil || seen[x] {
+			return false
+		}
+		seen[x] = true
+		if pred(x) {
+			return true
+		}
+		if d == 0 {
+			return false
+		}
+		if in, ok := x.(ssa.Instruction); ok {
+			for _, op := range in.Operands(nil) {
+				if *op != nil && rec(*op, d-1) {
+					return true
+				}
+			}
+		}
+		if al, ok := x.(*ssa.Alloc); ok {
+			for _, sv := range storedInto(al) {
+				if rec(sv, d-1) {
+					return true
+				}
+			}
+		}
+		return false
+	}
+	return rec(v, depth)
+}
